@@ -62,10 +62,11 @@ func init() {
 					out = append(out, &Config{ID: fmt.Sprintf("C07/clibad/%s/%s", eco, bad), Pkg: cmdPkg, Func: "C07CliSortBad", Args: []ArgSpec{ArgStr(eco), ArgTmpl(t2[0]), ArgTmpl(bad), ArgTmpl(t2[0])}})
 				}
 			}
+			out = append(out, abstractSortConfigs(tier)...)
 			return out
 		},
 		Bounds: func(tier string) string {
-			return "lists of exactly 3 versions from 4 (quick) / 8 (thorough) grammar templates per ecosystem incl. textually different equal versions; one (quick) / all 5 (thorough) non-identity input permutations; lists longer than 3 (and the pdqsort path for n >= 12) are outside the claim; ecosystems with an open C01 finding are excluded while that finding is open"
+			return "real ecosystems: lists of exactly 3 versions from 4 (quick) / 8 (thorough) grammar templates per ecosystem incl. textually different equal versions; one (quick) / all 5 (thorough) non-identity input permutations; ecosystems with an open C01 finding are excluded while that finding is open. Longer lists: the CLI's generic sort function and the real slices.SortFunc over an abstract ecosystem (version = key + text, Compare by key): every weak ordering of 1..5 (quick) / 1..7 (thorough) arguments incl. repeated texts, every 0/1 key vector of length 12 and 13 (quick; 13 takes the pdqsort path) / 12..16 (thorough), every 0/1/2 key vector up to length 10 (thorough), and lists of 33 and 64 arguments with 10 free 0/1/2 keys among fixed ones (thorough); that real ecosystems behave like the abstract one rests on C01 (total preorder) and C18 (String returns the text)"
 		},
 	})
 
@@ -131,4 +132,78 @@ func init() {
 		},
 		Assume: []string{"name -> ecosystem table is spec-side (zzh dispatchers generated from the list of 20 names)"},
 	})
+}
+
+// abstractSortConfigs: C07AbstractSort(ids, keys, fix) - see harness/cmd/zz_verif_cmd.go.
+func abstractSortConfigs(tier string) []*Config {
+	var out []*Config
+	letters := "abcdefghijklmnopqrstuvwxyzABCDEFGHIJKLMNOPQRSTUVWXYZ0123456789!#"
+	add := func(ids, keys string, fix int64) {
+		out = append(out, &Config{ID: fmt.Sprintf("C07/abstract/%s/%s/fix%d", ids, keys, fix), Pkg: cmdPkg, Func: "C07AbstractSort", Args: []ArgSpec{ArgStr(ids), ArgTmpl(keys), ArgInt(fix)}})
+	}
+	ids := func(n int) string { return letters[:n] }
+	class := func(hi int) string { return fmt.Sprintf("{[0-%d]}", hi) }
+	maxSym := 5
+	if tier == "thorough" {
+		maxSym = 7
+	}
+	// every weak ordering of n distinct texts (comparisons fork on symbolic keys)
+	for n := 1; n <= maxSym; n++ {
+		if n <= 5 {
+			add(ids(n), strings.Repeat(class(n-1), n), 0)
+			continue
+		}
+		// split on the first key to spread the work
+		for k := 0; k < n; k++ {
+			add(ids(n), fmt.Sprint(k)+strings.Repeat(class(n-1), n-1), 0)
+		}
+	}
+	// the same text given twice or three times
+	for _, d := range []string{"aa", "aab", "aba", "abab", "abcab", "aaab", "abcabc"} {
+		nk := 0
+		for _, c := range d {
+			if int(c-'a')+1 > nk {
+				nk = int(c-'a') + 1
+			}
+		}
+		add(d, strings.Repeat(class(nk-1), nk), 0)
+	}
+	// 0/1 key vectors, keys made constant per path before sorting; 3 (quick) / 4 (thorough) leading keys
+	// enumerated in the configuration id to spread the work
+	lens := []int{12, 13}
+	pre := 3
+	if tier == "thorough" {
+		lens = []int{12, 13, 14, 15, 16}
+		pre = 4
+	}
+	for _, n := range lens {
+		for m := 0; m < 1<<pre; m++ {
+			p := fmt.Sprintf("%0*b", pre, m)
+			add(ids(n), p+strings.Repeat(class(1), n-pre), 1)
+		}
+	}
+	if tier == "thorough" {
+		for _, n := range []int{8, 9, 10} {
+			for m := 0; m < 9; m++ {
+				add(ids(n), fmt.Sprintf("%d%d", m/3, m%3)+strings.Repeat(class(2), n-2), 1)
+			}
+		}
+		// long lists: 10 free keys among fixed ones
+		for _, n := range []int{33, 64} {
+			for variant := 0; variant < 3; variant++ {
+				var sb strings.Builder
+				free := 0
+				for p := 0; p < n; p++ {
+					if free < 10 && (p*5+variant*7)%(n/10) == 0 {
+						sb.WriteString(class(2))
+						free++
+					} else {
+						sb.WriteString(fmt.Sprint((p*7 + 3 + variant) % 3))
+					}
+				}
+				add(letters[:n], sb.String(), 1)
+			}
+		}
+	}
+	return out
 }
